@@ -21,13 +21,11 @@ def check(R, F, P, cfg):
     # ---- R8.1 decision table ------------------------------------------------------------------------------
     R.doc("R8.1", "truth table of Weak::strong_count == spec; upgrade returns Some only on strong_count()!=0 and after a successful increment; box deref only under the accessible literal")
     sc = anchor(F, "weak::Weak::<T>::strong_count")
-    WCMH = "weak::Weak::<T>::weak_counter_marker"
     S = Super(P, sc, opaque=(DO - {sc.npath}) | {WCMH})
     paths = tables.normal_paths(S)
-    # the helper: Some(&record.weak_counter_marker) iff self.metadata is Some
-    hf = anchor(F, WCMH)
-    SH = Super(P, hf, opaque=DO)
-    hp = tables.normal_paths(SH)
+    # the private accessor (when the crate has one; its uses may as well read self.metadata directly): Some(&record.weak_counter_marker) iff self.metadata is Some
+    hf = F.fn(WCMH)
+    hp = tables.normal_paths(Super(P, hf, opaque=DO)) if hf is not None else []
     hbad = []
     for p in hp:
         rv = p.retval()
@@ -44,7 +42,8 @@ def check(R, F, P, cfg):
             hbad.append("%s -> %s" % (p.describe()[:80], fmt(rv)[:60]))
         if some and "weak_counter_marker" not in fmt(rv):
             hbad.append("Some of something else: %s" % fmt(rv)[:80])
-    R.inst("R8.1", "weak_counter_marker-helper", not hbad and len(hp) == 2, "Weak::weak_counter_marker: Some(&record.weak_counter_marker) iff metadata is Some: %s" % (hbad or "yes"), where=hf.span, cfg=cfg)
+    if hf is not None:
+      R.inst("R8.1", "weak_counter_marker-helper", not hbad and len(hp) == 2, "Weak::weak_counter_marker: Some(&record.weak_counter_marker) iff metadata is Some: %s" % (hbad or "yes"), where=hf.span, cfg=cfg)
 
     def atom_of_expr(e):
         e = strip(e)
@@ -53,14 +52,10 @@ def check(R, F, P, cfg):
         if e[0] == "call" and e[1] == "std::option::Option::<T>::map_or" and len(e[2]) == 3 and e[2][1] == ("const", 0):
             v = tables.closure_value(S, e[2][2])
             if v is not None and strip(v)[0] == "call" and strip(v)[1] == WCM + "is_accessible":
-                opt = strip(e[2][0])
-                if "metadata" in fmt(opt) or (opt[0] == "ret" and opt[1] == WCMH):
+                if is_self_record_opt(e[2][0]):
                     return "present_accessible"
         if e[0] == "call" and e[1] == WCM + "is_accessible":
-            r_ = strip(e[2][0])
-            while isinstance(r_, tuple) and r_ and r_[0] in ("field", "as", "deref", "ref"):
-                r_ = strip(r_[1])
-            if isinstance(r_, tuple) and r_ and r_[0] == "ret" and r_[1] == WCMH:
+            if within_self_record(e[2][0]):
                 return "accessible"
         if e[0] == "call" and e[1] == "std::result::Result::<T, E>::unwrap_or" and len(e[2]) == 2 and e[2][1] == ("const", 1):
             inner = strip(e[2][0])
@@ -83,8 +78,7 @@ def check(R, F, P, cfg):
             if n:
                 return (n, tr)
         if a[0] == "discr" and isinstance(tr, tuple):
-            r_ = strip(a[1])
-            if isinstance(r_, tuple) and r_ and r_[0] == "ret" and r_[1] == WCMH:
+            if is_self_record_opt(a[1]):
                 if tr in (("is", 1), ("not", 0)):
                     return ("present", True)
                 if tr in (("is", 0), ("not", 1)):
